@@ -498,4 +498,153 @@ theorem GetSum_disagree (env : MapEnv) (fuel : Nat) :
   rw [GetSum_eq_fold, genList_model env skInf [] rfl]
   rfl
 
+/-! ### 3. constructors and `DecodeDDSketch` -/
+
+/-- the Go `store.Provider` of a store kind: every call hands out a fresh empty store -/
+def provider (k : StoreKind) : Unit → Res Store := fun _ => .ok (Store.new k)
+
+section Ctor
+variable {M S : Type} [MapI M] [StoreI S] [Inhabited M] [Inhabited S]
+
+/-- `NewDDSketchFromStoreProvider` (ddsketch.go:64), any instances: two calls of the provider, then `NewDDSketch`
+    (positive store first); a panicking provider propagates -/
+theorem NewFromProvider_eq (fuel : Nat) (m : M) (p : Unit → Res S) :
+    Gen.SketchIter.NewDDSketchFromStoreProvider fuel m p =
+      Res.bind (p ()) (fun a => Res.bind (p ()) (fun b => .ok (NewDDSketch m a b))) := rfl
+
+theorem NewFromProvider_ok (fuel : Nat) (m : M) (p : Unit → Res S) (a : S) (h : p () = .ok a) :
+    Gen.SketchIter.NewDDSketchFromStoreProvider fuel m p =
+      .ok { IndexMapping := m, positiveValueStore := a, negativeValueStore := a, zeroCount := .fin 0 } := by
+  rw [NewFromProvider_eq, h]; rfl
+
+theorem NewFromProvider_panic (fuel : Nat) (m : M) (p : Unit → Res S) (h : p () = .panic) :
+    Gen.SketchIter.NewDDSketchFromStoreProvider fuel m p = .panic := by
+  rw [NewFromProvider_eq, h]; rfl
+
+end Ctor
+
+/-- **`NewFromProvider_model`**: the regenerated constructor is the model's `Sketch.new` -/
+theorem NewFromProvider_model (fuel : Nat) (env : MapEnv) (k : StoreKind) :
+    Gen.SketchIter.NewDDSketchFromStoreProvider fuel env (provider k) =
+      .ok (toGen env (Sketch.new (some env.id) k)) := rfl
+
+theorem ofModel_new : GenStat.ofModel Summary.new = Gen.Stat.NewSummaryStatistics :=
+  ((GenStat.toModel_eq_iff _ _).mp GenStat.new_eq).symm
+
+/-- **`NewExact_model`**: `NewDDSketchWithExactSummaryStatistics` (ddsketch.go:566) is the model's `XSketch.new` -/
+theorem NewExact_model (fuel : Nat) (env : MapEnv) (k : StoreKind) :
+    Gen.SketchIter.NewDDSketchWithExactSummaryStatistics fuel env (provider k) =
+      .ok (toGenX env (XSketch.new (some env.id) k)) := by
+  unfold Gen.SketchIter.NewDDSketchWithExactSummaryStatistics
+  rw [NewFromProvider_model]
+  simp only [Res.bind_ok, toGenX, XSketch.new, ofModel_new]
+
+/-- the four store getters are the fields -/
+theorem GetStores_model (env : MapEnv) (s : Sketch) (x : XSketch) :
+    Gen.SketchIter.DDSketch.GetPositiveValueStore (toGen env s) = s.pos ∧
+    Gen.SketchIter.DDSketch.GetNegativeValueStore (toGen env s) = s.neg ∧
+    Gen.SketchIter.DDSketchWithExactSummaryStatistics.GetPositiveValueStore (toGenX env x) = x.sk.pos ∧
+    Gen.SketchIter.DDSketchWithExactSummaryStatistics.GetNegativeValueStore (toGenX env x) = x.sk.neg :=
+  ⟨rfl, rfl, rfl, rfl⟩
+
+/-- `DecodeDDSketch` (ddsketch.go:403) with a possibly nil mapping argument (`M := Option MapEnv`): a fresh
+    sketch from the provider, then the plain decoder of `GenSketch5` -/
+theorem DecodeDDSketch_eqO (fuel : Nat) (b : List (BitVec 8)) (k : StoreKind) (m : Option MapEnv) :
+    Gen.SketchIter.DecodeDDSketch fuel b (provider k) m =
+      DDSketch.DecodeAndMergeWith fuel (toGenO m (Sketch.new (m.map (fun e => e.id)) k)) b := by
+  unfold Gen.SketchIter.DecodeDDSketch provider
+  simp only [Res.bind_ok]
+  rw [bind_pair_id]
+  rfl
+
+theorem DecodeDDSketch_eqE (fuel : Nat) (b : List (BitVec 8)) (k : StoreKind) (env : MapEnv) :
+    Gen.SketchIter.DecodeDDSketch fuel b (provider k) env =
+      DDSketch.DecodeAndMergeWith fuel (toGen env (Sketch.new (some env.id) k)) b := by
+  unfold Gen.SketchIter.DecodeDDSketch provider
+  simp only [Res.bind_ok]
+  rw [bind_pair_id]
+  rfl
+
+/-- **`DecodeDDSketch_relO`** (fuel `≥ len b + 9`): against the model's `Sketch.decodeAndMergeWith` on
+    `Sketch.new`: model `some (.ok s')` ⇒ `.ok (g', nil)` with `ofGenO g' = s'`; model `some (.error e)` ⇒
+    `.ok (g', decErr e)` (Go error value of the refusal, never nil; "missing index mapping" with a nil mapping
+    argument and no mapping block in the input); model `none` ⇒ nothing claimed -/
+theorem DecodeDDSketch_relO (fuel : Nat) (b : List (BitVec 8)) (k : StoreKind) (m : Option MapEnv)
+    (hf : b.length + 9 ≤ fuel) :
+    DecRelO ((Sketch.new (m.map (fun e => e.id)) k).decodeAndMergeWith (GenEncoding.nb b))
+      (Gen.SketchIter.DecodeDDSketch fuel b (provider k) m) := by
+  rw [DecodeDDSketch_eqO]
+  exact DecodeAndMergeWith_relO m _ rfl fuel b hf
+
+/-- the same with a mapping object as argument (`M := MapEnv`) -/
+theorem DecodeDDSketch_relE (fuel : Nat) (b : List (BitVec 8)) (k : StoreKind) (env : MapEnv)
+    (hf : b.length + 9 ≤ fuel) :
+    DecRelE ((Sketch.new (some env.id) k).decodeAndMergeWith (GenEncoding.nb b))
+      (Gen.SketchIter.DecodeDDSketch fuel b (provider k) env) := by
+  rw [DecodeDDSketch_eqE]
+  exact DecodeAndMergeWith_rel env _ rfl fuel b hf
+
+/-- a panicking provider: `DecodeDDSketch` panics (any instances) -/
+theorem DecodeDDSketch_panic {M S : Type} [MapI M] [StoreI S] [Inhabited M] [Inhabited S] (fuel : Nat)
+    (b : List (BitVec 8)) (p : Unit → Res S) (m : M) (h : p () = .panic) :
+    Gen.SketchIter.DecodeDDSketch fuel b p m = .panic := by
+  unfold Gen.SketchIter.DecodeDDSketch; rw [h]; rfl
+
+/-! ### 4a. `DDSketchWithExactSummaryStatistics.ChangeMapping` -/
+
+open DDS.ChangeMapping in
+/-- the exact variant's `ChangeMapping` (ddsketch.go:711), targets from the sparse provider: the plain
+    `ChangeMapping` of `GenSketch6` on the embedded sketch, the statistics copied and rescaled -/
+theorem XChangeMapping_eq (old new : MapEnv) (x : XSketch) (scale : F64) (fuel : Nat) :
+    Gen.SketchIter.DDSketchWithExactSummaryStatistics.ChangeMapping fuel (toGenX old x) new (provider .sparse)
+        scale =
+      Res.bind (DDSketch.ChangeMapping fuel (toGen old x.sk) new (Store.sp []) (Store.sp []) scale)
+        (fun r => .ok { DDSketch := r.2.2, summaryStatistics := GenStat.ofModel (x.st.rescale scale) }) := by
+  unfold Gen.SketchIter.DDSketchWithExactSummaryStatistics.ChangeMapping provider
+  simp only [Res.bind_ok, toGenX_sk, toGenX_st, GenStat.copy_eq, GenStat.rescale_ofModel]
+  rfl
+
+open DDS.ChangeMapping in
+/-- **`XChangeMapping_rel`**: general path: whenever the model's `xchangeMapping` answers `some t` and no inner
+    loop runs out of fuel (`allExit`, `GenSketch6`), the generated code returns `t` on the new mapping object -/
+theorem XChangeMapping_rel (old new : MapEnv) (x t : XSketch) (scale : F64) (fuel : Nat)
+    (p n : List (Int × Rat)) (hp : x.sk.pos.binsList = some p) (hn : x.sk.neg.binsList = some n)
+    (hne : (F64.eq scale F64.one && old.id.equals new.id) = false)
+    (hexp : allExit old new scale fuel (p.map (·.1)) = true)
+    (hexn : allExit old new scale fuel (n.map (·.1)) = true)
+    (hm : xchangeMapping old new x scale fuel = some t) :
+    Gen.SketchIter.DDSketchWithExactSummaryStatistics.ChangeMapping fuel (toGenX old x) new (provider .sparse)
+        scale = .ok (toGenX new t) := by
+  unfold xchangeMapping at hm
+  cases hc : changeMapping old new x.sk scale fuel with
+  | none => simp [hc] at hm
+  | some sk =>
+    simp only [hc, Option.bind_eq_bind, Option.bind_some, Option.pure_def, Option.some.injEq] at hm
+    subst hm
+    rw [XChangeMapping_eq, ChangeMapping_rel old new x.sk sk scale fuel p n hp hn hne hexp hexn hc]
+    rfl
+
+open DDS.ChangeMapping in
+/-- the identity shortcut (scale exactly 1, `Equals` mappings): a copy of the sketch on the OLD mapping object,
+    the statistics rescaled by the factor all the same — generated code and model -/
+theorem XChangeMapping_identity (old new : MapEnv) (x : XSketch) (scale : F64) (fuel : Nat)
+    (hs : F64.eq scale F64.one = true) (hm : old.id.equals new.id = true) :
+    Gen.SketchIter.DDSketchWithExactSummaryStatistics.ChangeMapping fuel (toGenX old x) new (provider .sparse)
+        scale = .ok (toGenX old { sk := x.sk, st := x.st.rescale scale }) ∧
+    xchangeMapping old new x scale fuel = some { sk := x.sk, st := x.st.rescale scale } := by
+  obtain ⟨h1, h2⟩ := ChangeMapping_identity old new x.sk scale fuel (Store.sp []) (Store.sp []) hs hm
+  constructor
+  · rw [XChangeMapping_eq, h1]; rfl
+  · unfold xchangeMapping; rw [h2]; rfl
+
+open DDS.ChangeMapping in
+/-- out of fuel on the general path: the generated code says so -/
+theorem XChangeMapping_nofuel (old new : MapEnv) (x : XSketch) (scale : F64) (fuel : Nat)
+    (p n : List (Int × Rat)) (hp : x.sk.pos.binsList = some p) (hn : x.sk.neg.binsList = some n)
+    (hne : (F64.eq scale F64.one && old.id.equals new.id) = false)
+    (hex : (allExit old new scale fuel (p.map (·.1)) && allExit old new scale fuel (n.map (·.1))) = false) :
+    Gen.SketchIter.DDSketchWithExactSummaryStatistics.ChangeMapping fuel (toGenX old x) new (provider .sparse)
+        scale = .nofuel := by
+  rw [XChangeMapping_eq, ChangeMapping_nofuel old new x.sk scale fuel _ _ p n hp hn hne hex]; rfl
+
 end DDS.GenSketch7
